@@ -92,7 +92,7 @@ func asStatus(err error, target **rtspc.StatusError) bool {
 // verifyWire: the interleaved frames the player received are frames the camera
 // sent (nothing invented), and from the first live frame on they are exactly
 // the live frames, in order, on the channel of their track.
-func (q *rtspRequester) verifyWire(sentAll, live []fakecam.Frame) string {
+func (q *rtspRequester) verifyWire(sentAll, live []fakecam.Frame, push func() *fakecam.Frame) string {
 	if q.c == nil || len(live) == 0 {
 		return ""
 	}
@@ -103,16 +103,31 @@ func (q *rtspRequester) verifyWire(sentAll, live []fakecam.Frame) string {
 	last := string(live[len(live)-1].Data)
 	var got []rtspc.Frame
 	deadline := time.Now().Add(bound)
+	seen := func() bool {
+		for _, g := range got {
+			if string(g.Payload) == last {
+				return true
+			}
+		}
+		return false
+	}
 	for {
 		got = append(got, q.c.TakeFrames()...)
-		if len(got) > 0 && string(got[len(got)-1].Payload) == last {
+		if seen() {
 			break
 		}
 		if time.Now().After(deadline) {
-			return fmt.Sprintf("the RTSP player received %d frames and not the last of the %d live frames within %v", len(got), len(live), bound)
+			cp := q.c.Captured()
+			return fmt.Sprintf("the RTSP player received %d frames and not the last of the %d live frames within %v (captured %d bytes, unparsed %d)", len(got), len(live), bound, len(cp), q.c.Unparsed())
 		}
-		it, err := q.c.ReadItemTimeout(bound / 10)
+		it, err := q.c.ReadItemTimeout(50 * time.Millisecond)
 		if err == rtspc.ErrTimeout {
+			// ipchub's connection buffer holds back what is written within 1/30 s of the
+			// previous write until the next write comes (documented: not a loss); one
+			// more frame from the camera pushes the tail out
+			if f := push(); f != nil {
+				known[string(f.Data)] = *f
+			}
 			continue
 		}
 		if err != nil {
@@ -139,7 +154,7 @@ func (q *rtspRequester) verifyWire(sentAll, live []fakecam.Frame) string {
 			start = i
 		}
 	}
-	if start < 0 || len(got)-start != len(live) {
+	if start < 0 || len(got)-start < len(live) {
 		return fmt.Sprintf("the RTSP player received %d frames from the first live frame on (index %d of %d), the camera sent %d", len(got)-start, start, len(got), len(live))
 	}
 	for i := range live {
@@ -205,7 +220,7 @@ func (q *httpRequester) request(path string, arm func()) (string, *media.Stream,
 	return "panic", nil, fmt.Sprintf("the HTTP requester got status %d", resp.StatusCode)
 }
 
-func (q *httpRequester) verifyWire(sentAll, live []fakecam.Frame) string {
+func (q *httpRequester) verifyWire(sentAll, live []fakecam.Frame, push func() *fakecam.Frame) string {
 	if q.resp == nil || q.ext != ".flv" || q.resp.StatusCode != 200 {
 		return ""
 	}
